@@ -32,8 +32,9 @@ MUST_COVER = {'abacusnbody.data.compaso_halo_catalog.CompaSOHaloCatalog._read_ha
 FUNCS = catlib.FUNCS + [chc.CompaSOHaloCatalog._setup_file_paths]
 
 LAY = {  # concrete particle layout per halo row (start, count) in a file of 4 records; merge (start, count) in a cleaned file of 2
-    'A': ([(0, 2), (3, 1), (4, 0)], [(0, 1), (1, 0), (1, 1)]),
-    'B': ([(1, 1), (2, 0), (2, 2)], [(0, 0), (0, 2), (2, 0)]),
+    # (the first two halos both own merged particles: a filter that drops the first must not shift where the second reads its own)
+    'A': ([(0, 2), (3, 1), (4, 0)], [(0, 1), (1, 1), (2, 0)]),
+    'B': ([(1, 1), (2, 0), (2, 2)], [(0, 1), (1, 1), (2, 0)]),
 }
 
 
